@@ -30,10 +30,14 @@ PROPS = {"a": [1, 2, None, 7], "b": ["x", "ä", None, 'q"r', "p\u2028q", "r\ns"]
 def gen_case(rng, tier):
     nf = rng.choice([0, 1, 2, 3, 5])
     feats = []
+    full = rng.random() < 0.25          # every feature has EVERY key (explicit nulls count), each in its own member order
+    mixnum = rng.random() < 0.25        # a numeric property whose first value is a JSON integer and a later one a fraction
     for i in range(nf):
-        keys = [k for k in PROPS if rng.random() < 0.6]
+        keys = [k for k in PROPS if full or rng.random() < 0.6]
         rng.shuffle(keys)
         props = {k: rng.choice(PROPS[k]) for k in keys}
+        if mixnum:
+            props["m"] = [1, 2, 2.5, 7, -0.75][i % 5]
         feats.append({"type": "Feature", "properties": props, "geometry": rng.choice(GEOMS)})
     md = {}
     for nm in rng.sample(NAMES, rng.choice([0, 1, 2, 3])):
@@ -48,6 +52,7 @@ def gen_case(rng, tier):
     if rng.random() < 0.3:        # features not the last member
         raw["after"] = "z"
     return {"op": "geojson", "raw": raw, "indent": rng.choice(["default", None, 0, 2, 4]), "ensure_ascii": rng.random() < 0.3,
+            "suffix": rng.choice(["", "", "", ".gz", ".bz2", ".xz"]),
             "columns": rng.sample(list(PROPS), rng.randint(0, 3)) if rng.random() < 0.3 else []}
 
 
@@ -92,7 +97,7 @@ def impl(case):
         except Exception as e:
             res["read_err"] = f"{type(e).__name__}: {e}"
             return res
-        out = os.path.join(d, "out.geojson")
+        out = os.path.join(d, "out.geojson" + case.get("suffix", ""))
         kw = {}
         if case["indent"] != "default":
             kw["indent"] = case["indent"]
@@ -100,7 +105,10 @@ def impl(case):
             kw["ensure_ascii"] = True
         try:
             g.write(out, **kw)
-            text = open(out, encoding="utf-8").read()
+            import bz2, gzip, lzma
+            opener = {"": open, ".gz": gzip.open, ".bz2": bz2.open, ".xz": lzma.open}[case.get("suffix", "")]
+            with opener(out, "rt", encoding="utf-8") as fh:      # (a file NAMED .gz must BE gzip: another tool reads it by its name)
+                text = fh.read()
             res["text"] = text
             try:
                 res["loaded"] = json.loads(text)
